@@ -118,7 +118,7 @@ Section Encoder.
         match fuel with
         | O => OutOfFuel
         | S f =>
-            if column <? offset then Panic 912                       (* usize subtraction *)
+            if column <? offset then Panic 943                       (* usize subtraction *)
             else
               let shift := column - offset in
               let '(repeats, rest') := take_run column code 1 rest in
@@ -177,11 +177,16 @@ Section Encoder.
     Ok (header_bytes (N.of_nat w) (N.of_nat (length q)) ++ palette_bytes 0 pal ++ body ++ [ESC; c_bslash]).
 
   (* colours present in a band, and the condition on an iteration order *)
-  Definition band_colors (b : list (list N)) : list N := nodup N.eq_dec (concat b).
+  Fixpoint nodupb (l : list N) : bool :=
+    match l with
+    | [] => true
+    | c :: r => negb (existsb (N.eqb c) r) && nodupb r
+    end.
 
+  (* `order` enumerates, without repetition (HashMap keys), exactly the colours of the band *)
   Definition order_ok (order : list N) (b : list (list N)) : bool :=
-    let cs := band_colors b in
-    Nat.eqb (length order) (length cs) &&
+    let cs := concat b in
+    nodupb order &&
     forallb (fun c => existsb (N.eqb c) cs) order &&
     forallb (fun c => existsb (N.eqb c) order) cs.
 End Encoder.
